@@ -49,7 +49,7 @@ Proof. exact no_panic. Qed.
 (* ... and F-C02-1 is exactly the excluded case: an array filled into a nil slice panics on its first element *)
 Theorem C02_array_into_nil_slice_panics : forall e M F f cx el v vs st,
   eval_a e M F (S (S f)) cx (AList true el (ASet PId)) (VArr (v :: vs)) VNil st = Panicked.
-Proof. reflexivity. Qed.
+Proof. exact array_into_nil_slice_panics. Qed.
 
 Print Assumptions C02_basic_unchanged.
 Print Assumptions C02_pointer_nil.
